@@ -37,7 +37,7 @@ ASSUMPTIONS = ["kinds the statement does not classify (number for a string or pa
 VALIDATION = ("CommandDoesNotExist", "DuplicateResult", "MissingParameters", "NoSuchParameter", "ParameterNotValid", "PathDoesNotExist",
               "InvalidRelativePath", "ResultDoesNotExist", "ResultTypeNotValid", "ResultNotFuzzy", "ResultIsFuzzy")
 RAW_KINDS = ["int", "float", "numstr", "word", "boolword", "zero", "list", "nested", "tuple", "emptylist", "ref:nf", "ref:fz", "ref:bool", "ref:writer",
-             "unknown", "dtype-name", "existing-path", "missing", "extra"]
+             "unknown", "dtype-name", "existing-path", "missing", "extra", "inf-word", "nan-word", "huge-exponent", "list-of-inf"]
 _LOG = []
 
 
@@ -75,7 +75,8 @@ def _raw(rk):
             "zero": ("int", "0"), "list": ("list", [("int", "1"), ("int", "2")]), "nested": ("list", [("list", [("int", "1")]), ("list", [("int", "2")])]),
             "tuple": ("tuple", [("bare", "k", ("q", "v"))]), "emptylist": ("list", []), "ref:nf": ("bare", "A"), "ref:fz": ("bare", "AF"),
             "ref:bool": ("bare", "PV"), "ref:writer": ("bare", "W"), "unknown": ("bare", "NoSuchResult"), "dtype-name": ("bare", "Integer"),
-            "existing-path": ("q", "input.csv")}[rk]
+            "existing-path": ("q", "input.csv"), "inf-word": ("bare", "inf"), "nan-word": ("q", "nan"), "huge-exponent": ("bare", "1e999"),
+            "list-of-inf": ("list", [("int", "1"), ("bare", "-Infinity")])}[rk]
 
 
 def expect(kind, rk, required):
@@ -85,6 +86,14 @@ def expect(kind, rk, required):
     if rk == "extra":
         return ("reject", ("NoSuchParameter",))
     PNV = ("ParameterNotValid",)
+    if rk in ("inf-word", "nan-word", "huge-exponent"):
+        if kind == "Num":
+            return ("unspec",)  # non-finite numeric text: the statement does not say whether it is a number
+        rk = "word"
+    if rk == "list-of-inf":
+        if isinstance(kind, tuple) and kind[0] == "L" and kind[1] == "Num":
+            return ("unspec",)
+        rk = "list"
     if kind == "Num":
         if rk in ("int", "float", "numstr", "zero"):
             return ("accept",)
